@@ -375,4 +375,4 @@ def _worker(ctx, job):
 def run(ctx):
     quick = ctx.tier == "quick"
     versions = (4, 8, 13, 14) if quick else tuple(range(4, 15))
-    ctx.parallel(_worker, [(100, versions)] * 16 if quick else [(2000, versions)] * 16)
+    ctx.parallel(_worker, [(100, versions)] * 16 if quick else [(12000, versions)] * 16)
